@@ -101,7 +101,7 @@ CHECKS.update({
         technique="static analysis: sibling comparison of transitive effect signatures (field writes, ledger takes, constructions) on corresponding CFG fragments: match arms of shared enums, dominating regions; exit-path search from the non-empty edge of the import test",
         text="Decides sibling agreement on corresponding fragments: the two VmResult->StepResult mappers per variant, outcome "
              "classes of every VmResult consumer per role, the ModuleExport finalisers per variant, the frame pop sites, and the "
-             "tsrun_step/tsrun_run wrappers; a non-empty set of missing imports has NeedImports as its only outcome in every entry point. The module-role disagreement (a dependency whose body suspends fails, the entry "
+             "tsrun_step/tsrun_run wrappers; a non-empty set of missing imports has NeedImports as its only outcome in every entry point; the entry points install the current module path alike and every installer of a program's module scope writes the whole run record the step() finaliser takes (the eval() suspension defect was repaired, fix: commit). The module-role disagreement (a dependency whose body suspends fails, the entry "
              "module suspends) is genuine and listed with failing programs. Equality of results is not decided.",
         ref="4/C19"),
 })
@@ -257,7 +257,7 @@ CHECKS.update({
              "auto-increment counter (a contradiction between the two beliefs restarted the numbering after `A = -10` - reproduced with computed "
              "members and repaired, fix: commit); enum and namespace declarations both look up an existing binding before creating their object (the "
              "enum lowering does not: repeated enum declarations do not merge - known finding); the namespace export step handles the same declaration "
-             "kinds as the module export step. Also: namespace members are published in the turn of the body loop that compiles them; a derived class constructor initialises fields and parameter properties after super().",
+             "kinds as the module export step. Also: namespace members are published in the turn of the body loop that compiles them; a derived class constructor initialises fields and parameter properties after super(); no emitted equality test compares a value with itself or with a unary opcode of itself (such a test is a NaN test, not a number test).",
         ref="4/C04"),
 })
 
